@@ -542,43 +542,68 @@ def check_branch_slot(ctx, f, call, slot, table, label):
     ctx.check(got == want, "%s slot %s" % (label, slot), detail="quadrature state at the wrong point", expected=want, found=got, fi=f, node=call)
 
 
+def subject_to_table(ctx):
+    """{(grid argument, expression is a signal?): grid the constraint is stored under | '<raise>'} from simulated calls of
+    Stage.subject_to (rkverif/sim.py), plus what was stored."""
+    from ..sim import Sim, fresh_obj
+    from ..layout import Sym, LayoutUnknown, freeze
+    P = ctx.prog
+    cache = P.__dict__.setdefault("_subject_to_table", {})
+    if "r" in cache:
+        return cache["r"]
+    f = P.own_method("Stage", "subject_to")
+    table, stored = {}, {}
+    GRIDS = ["point", "control", "inf", "integrator", "integrator_roots"]
+    for grid in [None] + GRIDS + ["no_such_grid"]:
+        for sig in (True, False):
+            cons = {g: [] for g in GRIDS + ["no_such_grid"]}
+            me = fresh_obj("self", _constraints=cons)
+            hooks = {".is_signal": lambda s_, r, a, k, n, sig=sig: sig, "._set_transcribed": lambda s_, r, a, k, n: None,
+                     "._parse_scale": lambda s_, r, a, k, n: Sym("scale"), "get_meta": lambda s_, r, a, k, n: Sym("meta")}
+            try:
+                Sim(P, hooks=hooks).call(f, [me, Sym("constr")], {"grid": grid})
+                where = [g for g, v in cons.items() if v]
+                table[(grid, sig)] = where[0] if len(where) == 1 and len(cons[where[0]]) == 1 else "<stored %d times>" % sum(len(v) for v in cons.values())
+                if len(where) == 1:
+                    stored[(grid, sig)] = cons[where[0]][0]
+            except LayoutUnknown as e:
+                table[(grid, sig)] = "<raise>" if "raise reached" in str(e) else "<unknown: %s>" % str(e)[:60]
+    cache["r"] = (f, table, stored)
+    return cache["r"]
+
+
+def subject_to_expected():
+    GRIDS = ["point", "control", "inf", "integrator", "integrator_roots"]
+    want = {(None, True): "control", (None, False): "point", ("no_such_grid", True): "<raise>", ("no_such_grid", False): "<raise>", ("point", True): "<raise>", ("point", False): "point"}
+    for g in GRIDS[1:]:
+        want[(g, True)] = g
+        want[(g, False)] = "point"
+    return want
+
+
 @rule("R04.8", min_instances=5, desc="classification in Stage.subject_to: default grid, unknown grid raises, signal on 'point' raises, non-signal forced to 'point', stored once under its grid")
 def r04_8(ctx):
-    f, node, grids = accepted_grids(ctx)
-    sc = ctx.scope(f)
-    par = sc.parent.get(node)
-    ok = isinstance(par, ast.If) and par.test is node and any(isinstance(s, ast.Raise) for s in par.body)
-    ctx.check(ok, "Stage.subject_to rejects unknown grid names", detail="unknown grid accepted", expected="if grid not in [...]: raise", found=ast.unparse(par)[:80] if par else "", fi=f)
-    ctx.check(set(grids) == {"point", "control", "inf", "integrator", "integrator_roots"}, "Stage.subject_to accepted grids", detail="grid list changed",
-              expected="point, control, inf, integrator, integrator_roots", found=str(grids), fi=f, sample={"grids": grids})
-    apps = [c for c in walk_no_nested(f.node) if isinstance(c, ast.Call) and isinstance(c.func, ast.Attribute) and c.func.attr == "append"
-            and "_constraints" in ast.unparse(c.func.value)]
-    ok = len(apps) == 1 and ast.unparse(apps[0].func.value) == "self._constraints[grid]" and not sc.guards(apps[0]) and not sc.enclosing_loops(apps[0])
-    if ok:
-        a = apps[0].args[0]
-        ok = isinstance(a, ast.Tuple) and len(a.elts) == 3 and ast.unparse(a.elts[0]) == f.params[1]
-    ctx.check(ok, "Stage.subject_to stores the constraint once, unmodified, under its grid", detail="declaration storage",
-              expected="self._constraints[grid].append((constr, meta, args)) unconditionally", found="; ".join(ast.unparse(a) for a in apps), fi=f)
-    # default + forcing
-    W = {}
-    for st in walk_no_nested(f.node):
-        if isinstance(st, ast.Assign) and len(st.targets) == 1 and ast.unparse(st.targets[0]) == "grid":
-            gs = tuple(("" if p else "not ") + ast.unparse(t) for t, p in sc.guards(st))
-            W[gs] = ast.unparse(st.value)
-    ok = W.get(("grid is None",)) == "'control' if self.is_signal(%s) else 'point'" % f.params[1] and W.get(("not self.is_signal(%s)" % f.params[1],)) == "'point'"
-    ctx.check(ok, "Stage.subject_to default grid and forcing of non-signals to 'point'", detail="grid classification",
-              expected="grid None -> control for signals / point otherwise; non-signal -> point", found=str(W), fi=f)
-    raises = [r for r in walk_no_nested(f.node) if isinstance(r, ast.Raise)]
-    sig = [r for r in raises if any("is_signal" in ast.unparse(t) and p for t, p in sc.guards(r)) and any("grid == 'point'" in ast.unparse(t) and p for t, p in sc.guards(r))]
-    ctx.check(len(sig) == 1, "Stage.subject_to rejects a signal on grid 'point'", detail="signal on point grid accepted", expected="raise", found=str(len(sig)), fi=f)
-    # args dict carries the declaration unchanged
-    d = [n for n in walk_no_nested(f.node) if isinstance(n, ast.Dict)]
-    ok = False
-    for dd in d:
-        items = {k.value: ast.unparse(v) for k, v in zip(dd.keys, dd.values) if isinstance(k, ast.Constant)}
-        if "include_last" in items:
-            ok = items.get("include_last") == "include_last" and items.get("include_first") == "include_first" and items.get("grid") == "grid" and items.get("scale") == "scale"
-    ctx.check(ok, "Stage.subject_to records include_first/include_last/grid/scale as declared", detail="declaration arguments", expected="identity mapping", found="", fi=f)
+    from ..layout import Sym, freeze
+    f, table, stored = subject_to_table(ctx)
+    want = subject_to_expected()
+    unknown = {k: v for k, v in table.items() if str(v).startswith("<unknown")}
+    if unknown:
+        raise AnalysisError("Stage.subject_to could not be simulated: %s" % list(unknown.items())[:2])
+    bad = {k: (table.get(k), v) for k, v in want.items() if k[0] == "no_such_grid" and table.get(k) != v}
+    ctx.check(not bad, "Stage.subject_to rejects unknown grid names", detail="unknown grid accepted", expected="raise for grid='no_such_grid'", found=str(bad), fi=f)
+    accepted = sorted(g for (g, sig), v in table.items() if g is not None and sig and v == g)
+    ctx.check(accepted == sorted(["control", "inf", "integrator", "integrator_roots"]), "Stage.subject_to accepted grids", detail="grid list changed",
+              expected="point, control, inf, integrator, integrator_roots", found=str(accepted), fi=f, sample={"grids": accepted})
+    ok = all(isinstance(v, tuple) and len(v) == 3 and freeze(v[0]) == freeze(Sym("constr")) for v in stored.values()) and not any(str(v).startswith("<stored") for v in table.values())
+    ctx.check(ok, "Stage.subject_to stores the constraint once, unmodified, under its grid", detail="declaration storage", expected="self._constraints[grid].append((constr, meta, args)) once",
+              found=str({k: v for k, v in table.items() if str(v).startswith("<stored")})[:120], fi=f)
+    bad = {k: (table.get(k), v) for k, v in want.items() if k[0] is None or (k[0] != "no_such_grid" and not k[1]) if table.get(k) != v}
+    ctx.check(not bad, "Stage.subject_to default grid and forcing of non-signals to 'point'", detail="grid classification",
+              expected="no grid: 'control' for a signal, 'point' otherwise; a non-signal is stored under 'point' whatever grid was given", found=str(bad), fi=f, sample={"table": str(sorted(table.items(), key=str))[:300]})
+    bad = {k: (table.get(k), v) for k, v in want.items() if k == ("point", True) and table.get(k) != v}
+    ctx.check(not bad, "Stage.subject_to rejects a signal on grid 'point'", detail="signal on point grid accepted", expected="raise", found=str(bad), fi=f)
+    bad = {k: (table.get(k), v) for k, v in want.items() if k[1] and k[0] not in (None, "point", "no_such_grid") and table.get(k) != v}
+    ctx.check(not bad, "Stage.subject_to keeps the declared grid of a path constraint", detail="path constraint stored under another grid", expected="stored under the grid given", found=str(bad), fi=f)
 
 
 INVENTORY = {
